@@ -540,25 +540,31 @@ pub fn array_reduce(
         (first, 1)
     };
 
+    let mut acc_guard = interp.guard_value(&accumulator);
+
     for i in present_indices(&arr, start_index as u32, length as u32) {
         if has_array_like_element(&arr, i) {
             let elem = get_array_like_element(&arr, i);
 
             let Guarded {
                 value: acc,
-                guard: _acc_guard,
+                guard: next_guard,
             } = interp.call_function(
                 callback.clone(),
                 JsValue::Undefined,
                 &[accumulator, elem, JsValue::Number(i as f64), this.clone()],
             )?;
             accumulator = acc;
+            // the accumulator may be an object only this loop holds: keep it alive until
+            // the next call (and for the caller)
+            acc_guard = next_guard.or_else(|| interp.guard_value(&accumulator));
         }
     }
 
-    // Accumulator is a derived value - no guard needed as it's either a primitive
-    // or an object from the array/callback which is already owned
-    Ok(Guarded::unguarded(accumulator))
+    Ok(Guarded {
+        value: accumulator,
+        guard: acc_guard,
+    })
 }
 
 pub fn array_find(
@@ -1785,6 +1791,8 @@ pub fn array_reduce_right(
         (elem, length as i64 - 2)
     };
 
+    let mut acc_guard = interp.guard_value(&accumulator);
+
     for i in (0..=start_index).rev() {
         let elem = arr
             .borrow()
@@ -1792,7 +1800,7 @@ pub fn array_reduce_right(
             .unwrap_or(JsValue::Undefined);
         let Guarded {
             value: result,
-            guard: _result_guard,
+            guard: next_guard,
         } = interp.call_function(
             callback.clone(),
             JsValue::Undefined,
@@ -1804,10 +1812,14 @@ pub fn array_reduce_right(
             ],
         )?;
         accumulator = result;
+        // keep an accumulator that only this loop holds alive (see reduce)
+        acc_guard = next_guard.or_else(|| interp.guard_value(&accumulator));
     }
 
-    // Accumulator is a derived value - no guard needed
-    Ok(Guarded::unguarded(accumulator))
+    Ok(Guarded {
+        value: accumulator,
+        guard: acc_guard,
+    })
 }
 
 pub fn array_flat(
@@ -2105,9 +2117,17 @@ pub fn array_to_sorted(
         })
         .collect();
 
+    // The comparator may empty the source array: the elements stay alive through this guard
+    // until the new array holds them
+    let guard = interp.heap.create_guard();
+    for v in &elements {
+        if let JsValue::Object(o) = v {
+            guard.guard(o.cheap_clone());
+        }
+    }
+
     let elements = sort_values(interp, elements, comparator.as_ref())?;
 
-    let guard = interp.heap.create_guard();
     let arr = interp.create_array_from(&guard, elements);
     Ok(Guarded::with_guard(JsValue::Object(arr), guard))
 }
